@@ -17,7 +17,9 @@ Import ListNotations.
     - the dependency-coverage invariant [Quiet] holds,
     - every held value is user-assigned or equals the value of the uncached
       specification evaluator under the CURRENT definitions and inputs,
-    - every further evaluation returns that specification value (an error
+    - every further evaluation during which no failing clean-up of a
+      try/finally replaced the depth-limit error ([s_masks] unchanged; see
+      C01 and [Exec/FinMask.v]) returns that specification value (an error
       other than the depth limit is the specification's error).
     What was cached earlier therefore never changes a later answer.
 
@@ -34,7 +36,7 @@ Theorem C02_answers_follow_current_definitions_partial :
   Quiet st /\
   (forall i v, lookup_data (s_data st) i = Some v ->
      mem_item i (s_inputs st) = true \/ exists f, spec_eval f st i = Val v) /\
-  (forall i r st', eval_top fuel st i = (r, st') -> r <> OutOfFuel ->
+  (forall i r st', eval_top fuel st i = (r, st') -> r <> OutOfFuel -> s_masks st' = s_masks st ->
      agrees r (fun g => spec_eval g st i)).
 Proof. exact history_correct2. Qed.
 Print Assumptions C02_answers_follow_current_definitions_partial.
@@ -73,6 +75,7 @@ Theorem C02_same_edits_same_answers : forall fuel cells refs maxd ops1 ops2 xs1 
   forall i r1 r2 st1' st2',
     eval_top fuel st1 i = (r1, st1') -> eval_top fuel st2 i = (r2, st2') ->
     r1 <> OutOfFuel -> r2 <> OutOfFuel -> r1 <> Err KDeep -> r2 <> Err KDeep ->
+    s_masks st1' = s_masks st1 -> s_masks st2' = s_masks st2 ->
     r1 = r2.
 Proof. exact same_edits_same_answers. Qed.
 Print Assumptions C02_same_edits_same_answers.
@@ -86,6 +89,7 @@ Theorem C02_live_equals_edits_only : forall fuel cells refs maxd ops xs xs' st s
   forall i r r' st1 st2,
     eval_top fuel st i = (r, st1) -> eval_top fuel st_e i = (r', st2) ->
     r <> OutOfFuel -> r' <> OutOfFuel -> r <> Err KDeep -> r' <> Err KDeep ->
+    s_masks st1 = s_masks st -> s_masks st2 = s_masks st_e ->
     r = r'.
 Proof. exact live_equals_edits_only. Qed.
 Print Assumptions C02_live_equals_edits_only.
